@@ -75,7 +75,7 @@ func checkC10(c FmtCase) Outcome {
 		}
 	}
 	s0 := gen(&content)
-	f := cli.Run(cli.Opt{Dir: sb.Root, Timeout: 30 * time.Second}, "-d", root, "regex", "format", c.Arg())
+	f := cli.Run(cli.Opt{Dir: sb.Root, Timeout: 30 * time.Second}, append(c.Global(root), "regex", "format", c.Arg())...)
 	b, _ := os.ReadFile(file)
 	formatted := string(b)
 	out.Detail["formatted"], out.Detail["format_exit"] = formatted, f.Exit
